@@ -241,7 +241,10 @@ class Builder:
 
         k = a[0]
         if k == "t":
-            return tys.TypeTypeArg(self.ty(a[1]))
+            # every other type argument goes through the public helper Type.type_arg()
+            self._targs = getattr(self, "_targs", 0) + 1
+            t = self.ty(a[1])
+            return t.type_arg() if self._targs % 2 else tys.TypeTypeArg(t)
         if k == "n":
             return tys.BoundedNatArg(a[1])
         if k == "s":
